@@ -607,22 +607,38 @@ package gts
 
 // Location methods as seen by the sequence-level operations: pure (no write to existing
 // memory).  What they compute is specified per kind above; at this level only purity is used.
+// valOf(l): the value of a location (its kind, coordinates, markers and parts), as opposed to
+// the identity of the slices that hold its parts.  Every Location method is a deterministic
+// function of the receiver's value and its arguments; the sequence-level edits are specified
+// by which method they apply to every feature with which arguments (the "wiring").  Assumed
+// with it: a location is not modified after it has been returned (the only in-place writer,
+// asComplete, is applied to lists the caller has just built).
+//@ spec func valOf(l Location) int uninterpreted
+//@ spec func shiftId(v int, i int, n int) int uninterpreted
+//@ spec func expId(v int, i int, n int) int uninterpreted
+//@ spec func normId(v int, length int) int uninterpreted
+//@ spec func revId(v int, length int) int uninterpreted
+
 //@ func (l Location) Shift(i, n int) (out Location)
-//@   trusted interface contract: purity is proved for the leaf kinds (frame obligations of their own contracts); Joined/Ordered/Complemented allocate fresh part lists
+//@   trusted interface contract: purity is proved for the leaf kinds (frame obligations of their own contracts); Joined/Ordered/Complemented allocate fresh part lists; the result's value is a function of the receiver's value and the arguments
 //@   ensures !isnil(out)
+//@   ensures valOf(out) == shiftId(valOf(l), i, n)
 //@   assigns nothing
 //@ func (l Location) Expand(i, n int) (out Location)
 //@   trusted interface contract: purity is proved for the leaf kinds, for Joined (any number of parts), Complemented and for Ordered over leaf parts; a composite result owns a fresh part list (proved for the same implementers; for an Ordered with composite parts it is assumed)
 //@   ensures !isnil(out)
 //@   ensures ownParts(out)
+//@   ensures valOf(out) == expId(valOf(l), i, n)
 //@   assigns nothing
 //@ func (l Location) Reverse(length int) (out Location)
 //@   trusted interface contract: purity is proved for the leaf kinds; composites allocate fresh part lists; the result is a function of the arguments
 //@   ensures !isnil(out) && out == revL(l, length)
+//@   ensures valOf(out) == revId(valOf(l), length)
 //@   assigns nothing
 //@ func (l Location) Normalize(length int) (out Location)
-//@   trusted interface contract: purity is proved for the leaf kinds; composites allocate fresh part lists
+//@   trusted interface contract: purity is proved for the leaf kinds; composites allocate fresh part lists; the result's value is a function of the receiver's value and the argument
 //@   ensures !isnil(out)
+//@   ensures valOf(out) == normId(valOf(l), length)
 //@   assigns nothing
 //@ func (l Location) Complement() (out Location)
 //@   trusted interface contract: purity (every implementation wraps or unwraps the receiver)
@@ -702,9 +718,11 @@ package gts
 //@   ensures tail: forall k in offset..len(bytesOf(out)): bytesOf(out)[k] == old(bytesOf(seq)[k+length])
 //@   ensures count: len(featsOf(out)) == len(featsOf(seq)) && fresh(featsOf(out))
 //@   ensures keys: forall k in 0..len(featsOf(out)): featsOf(out)[k].Key == old(featsOf(seq)[k].Key) && sameslice(featsOf(out)[k].Props, old(featsOf(seq)[k].Props))
+//@   ensures wiring: forall k in 0..len(featsOf(out)): valOf(featsOf(out)[k].Loc) == expId(valOf(old(featsOf(seq)[k].Loc)), offset, -length)
 //@   assigns nothing
 //@   loop 1: invariant len(ff) == len(featsOf(seq)) && fresh(ff)
 //@   loop 1: invariant forall k in 0..i: ff[k].Key == old(featsOf(seq)[k].Key) && sameslice(ff[k].Props, old(featsOf(seq)[k].Props))
+//@   loop 1: invariant forall k in 0..i: valOf(ff[k].Loc) == expId(valOf(old(featsOf(seq)[k].Loc)), offset, -length)
 //@   loop 1: decreases len(ff) - i
 
 // ---------------------------------------------------------------------------
@@ -774,8 +792,17 @@ package gts
 //@   ensures low: forall k in 0..emod(n, len(bytesOf(seq))): bytesOf(out)[k] == old(bytesOf(seq)[len(bytesOf(seq)) - emod(n, len(bytesOf(seq))) + k])
 //@   ensures high: forall k in emod(n, len(bytesOf(seq)))..len(bytesOf(out)): bytesOf(out)[k] == old(bytesOf(seq)[k - emod(n, len(bytesOf(seq)))])
 //@   ensures count: len(featsOf(out)) == len(featsOf(seq)) && fresh(featsOf(out))
+//@   ghost Q(k int) int
+//@   ensures wiring: forall k in 0..len(featsOf(seq)): 0 <= Q(k) && Q(k) < len(featsOf(out)) && featsOf(out)[Q(k)].Key == old(featsOf(seq)[k].Key) &&
+//@      sameslice(featsOf(out)[Q(k)].Props, old(featsOf(seq)[k].Props)) &&
+//@      valOf(featsOf(out)[Q(k)].Loc) == normId(expId(valOf(old(featsOf(seq)[k].Loc)), 0, emod(n, len(bytesOf(seq)))), len(bytesOf(seq)))
+//@   ensures wiring_injective: forall a in 0..len(featsOf(seq)): forall b in a+1..len(featsOf(seq)): Q(a) != Q(b)
 //@   assigns nothing
 //@   loop 1: invariant emod(n, len(bytesOf(seq))) == emod(old(n), len(bytesOf(seq))) && n <= 0 + max(old(n), len(bytesOf(seq)))
+//@   loop 2: ghost_update Q(k) := ite(k == idx2 - 1, Insert_P(0), ite(Q(k) >= Insert_P(0), Q(k) + 1, Q(k)))
+//@   loop 2: invariant forall k in 0..idx2: 0 <= Q(k) && Q(k) < len(ff) && ff[Q(k)].Key == old(featsOf(seq)[k].Key) && sameslice(ff[Q(k)].Props, old(featsOf(seq)[k].Props)) &&
+//@      valOf(ff[Q(k)].Loc) == normId(expId(valOf(old(featsOf(seq)[k].Loc)), 0, n), len(bytesOf(seq)))
+//@   loop 2: invariant forall a in 0..idx2: forall b in a+1..idx2: Q(a) != Q(b)
 //@   loop 1: use emodShift(n, len(bytesOf(seq)))
 //@   loop 1: decreases 0 - n
 //@   loop 2: invariant len(ff) == idx2 && fresh(ff)
